@@ -54,6 +54,11 @@ def gen_cases(quick, rng):
                     cases.append({'op': 'read', 'ty': ty, 't': codes(base[:i] + c + base[i:])})
                     if i < len(base):
                         cases.append({'op': 'read', 'ty': ty, 't': codes(base[:i] + c + base[i + 1:])})
+    # integer texts around and beyond the machine word: accepted with the exact value or refused, never wrapped
+    for base in ['9223372036854775807', '9223372036854775808', '9223372036854775809', '18446744073709551615', '18446744073709551616',
+                 '18446744073709551617', '99999999999999999999', '100000000000000000000', '1' + '0' * 30, '4294967296', '12345678901234567890123']:
+        cases.append({'op': 'read', 'ty': 'int', 't': codes(base)})
+        cases.append({'op': 'read', 'ty': 'int', 't': codes('-' + base)})
     for base in ['123.456', '-0.001', '23.', '100.000', '0.5', '1e5', '0x10', 'Inf', 'NaN', 'infinity', '1_000', '+1.5', '.', '-.', '-']:
         cases.append({'op': 'read', 'ty': 'float', 't': codes(base)})
         cases.append({'op': 'read', 'ty': 'int', 't': codes(base)})
